@@ -2,15 +2,19 @@
 from ratelimiter_common import *
 PROP = "C02"
 RULE = ("random scripts, bursts of callers polled in random order at every millisecond, idle gaps (fresh callers at one instant or spread), arrivals at exact multiples of the "
-        "period; three window types, limits 1..7 (and 5..130 with limit+1 simultaneous callers), periods incl. non-dyadic ones (sliding counter: only periods that pass the "
-        "bit-exact f64-vs-rational test counter_agrees), timeouts from 0 to ten periods; non-trivial = some caller had to wait or was rejected")
+        "period, metronomes (limit fresh callers every P-d ms for P/d+2 rounds: saturated windows back to back), up to 20 callers waiting at once; three window types, "
+        "limits 1..7 (and 5..130 with limit+1 simultaneous callers; up to 60 with 1 s / 60 s periods), periods 5 ms..2 s, 60 s, 1 day, 2^32+5 ms, 60 days, 0, "
+        "Duration::MAX, 2^62..2^64 s and the edge of what Instant can hold (sliding counter: only scripts that pass the bit-exact f64-vs-rational test), "
+        "timeouts 0 .. ten periods and Duration::MAX, clock jumps up to 60 days, callers through fresh clones / one long-lived service value / clone chains; "
+        "non-trivial = some caller had to wait or was rejected")
 
 
 def monitor(s, t):
     d = decode(s, t)
     if d is None:
         return "malformed or panicking run: %s" % t[:12]
-    wt, limit, P = s[0], s[1], s[2]
+    wt, limit, P = s[0], s[1], dur(s[2])
+    # every inner call() the implementation made, in whatever event (call(), poll, drop, clock advance)
     adm = [a for (a, _) in admissions(s, t)]
     if limit < 1 or P <= 0:
         return None
